@@ -50,12 +50,14 @@ class Gen:
         self.types = list(dict.fromkeys(grp[:2] + [r.randrange(NTYPES) for _ in range(r.randint(0, 2))]))
         if focus in ("C09", "C13", "C20") or r.random() < 0.3:
             self.types.append(r.randrange(30, 40))    # a TypeNamer type whose name depends on the value
+        if r.random() < 0.15:
+            self.types.append(46)     # the generic type (its name has a '[' before its last '.')
         if r.random() < 0.2:
             # the first and the last shard (loops over the shard array start and end there)
             self.types.append(r.choice([t for t, sh in SHARD.items() if sh in (0, 31)]))
         if r.random() < 0.35:
             self.types.append(r.choice([40, 41, 46]))     # the pre-encoded document type / published as a pointer / generic
-            self.types = list(dict.fromkeys(self.types))
+        self.types = list(dict.fromkeys(self.types))
         self.nbodies = r.randint(2, 6)
         self.leaf_type = self.types[-1]       # its handlers only get leaf bodies; body number `nbodies` publishes to it
 
@@ -143,7 +145,7 @@ class Gen:
             if self.focus == "C20" and o == "obs": p = 1.0
             if self.focus == "C05" and o == "panich": p = 0.8
             if self.focus == "C13" and o == "perrh": p = 0.8
-            if self.focus in ("C01", "C04") and o == "obs": p = 0.15
+            if self.focus in ("C01", "C04") and o == "obs": p = 0.35
             if r.random() < p:
                 opts.append(o)
         if r.random() < p_store:
